@@ -66,6 +66,15 @@ fn piece_strategy() -> BoxedStrategy<Vec<WOp>> {
             WOp::Read { slot, n },
             WOp::Flush { slot },
         ]),
+        // write, shrink within the last sector, grow again (the gained range must read zero
+        // even if the growing call fails half-way)
+        2 => (slot.clone(), 0u8..3, prop_oneof![small(), large()], proptest::sample::select(vec![1i32, 10, 63, 64, 100, 400]), proptest::sample::select(vec![1i32, 50, 64, 100, 500, 4000])).prop_map(|(slot, name, data, down, up)| vec![
+            WOp::CreateStream { slot, name },
+            WOp::WriteAll { slot, data },
+            WOp::SetLen { slot, len: LenSpec::Rel(-down) },
+            WOp::SetLen { slot, len: LenSpec::Rel(up) },
+            WOp::Flush { slot },
+        ]),
         // overwrite + seek elsewhere (window move writes back) + flush
         1 => (slot.clone(), small(), any::<u16>()).prop_map(|(slot, sm, frac)| vec![
             WOp::SeekStart { slot, frac: 0 },
